@@ -435,10 +435,7 @@ package raft
 //@   ensures result0 == nil ==> spos[ref(r)] == old(spos[ref(r)]) + 1 && e.index == sIdx(ref(r), old(spos[ref(r)])) && e.term == sTerm(ref(r), old(spos[ref(r)])) && e.typ == sTyp(ref(r), old(spos[ref(r)]))
 //@   ensures forall(q, q != ref(r) ==> spos[q] == old(spos[q]))
 
-//@ func (*Config).decode
-//@   trusted
-//@   modifies all(c)
-//@   ensures result0 == nil ==> c.Index == e.index && c.Term == e.term
+// (trusted func (*Config).decode removed: verified contract in verif_contracts_codecs2.go)
 
 //@ func (*Raft).onAppendEntriesRequest$1
 //@   loop 1 invariant true
